@@ -1335,7 +1335,10 @@ int tls13_record_get_handshake_finished(const uint8_t *record,
 int tls13_padding_len_rand(size_t *padding_len)
 {
 	uint8_t val;
-	rand_bytes(&val, 1);
+	if (rand_bytes(&val, 1) != 1) {
+		error_print();
+		return -1;
+	}
 	*padding_len = val % 128;
 	return 1;
 }
@@ -1551,8 +1554,11 @@ int tls13_do_connect(TLS_CONNECT *conn)
 	// send ClientHello
 	tls_trace("send ClientHello\n");
 	tls_record_set_protocol(record, TLS_protocol_tls1);
-	rand_bytes(client_random, 32); // TLS 1.3 Random 不再包含 UNIX Time
-	sm2_key_generate(&client_ecdhe);
+	if (rand_bytes(client_random, 32) != 1 // TLS 1.3 Random 不再包含 UNIX Time
+		|| sm2_key_generate(&client_ecdhe) != 1) {
+		error_print();
+		goto end;
+	}
 	tls13_client_hello_exts_set(client_exts, &client_exts_len, sizeof(client_exts), &(client_ecdhe.public_key));
 	tls_record_set_handshake_client_hello(record, &recordlen,
 		TLS_protocol_tls12, client_random, NULL, 0,
@@ -1845,7 +1851,11 @@ int tls13_do_connect(TLS_CONNECT *conn)
 			goto end;
 		}
 		tls13_record_trace(stderr, record, recordlen, 0, 0);
-		tls13_padding_len_rand(&padding_len);
+		if (tls13_padding_len_rand(&padding_len) != 1) {
+			error_print();
+			tls_send_alert(conn, TLS_alert_internal_error);
+			goto end;
+		}
 		if (tls13_record_encrypt(&conn->client_write_key, conn->client_write_iv,
 			conn->client_seq_num, record, recordlen, padding_len,
 			enced_record, &enced_recordlen) != 1) {
@@ -1873,7 +1883,11 @@ int tls13_do_connect(TLS_CONNECT *conn)
 			goto end;
 		}
 		tls13_record_trace(stderr, record, recordlen, 0, 0);
-		tls13_padding_len_rand(&padding_len);
+		if (tls13_padding_len_rand(&padding_len) != 1) {
+			error_print();
+			tls_send_alert(conn, TLS_alert_internal_error);
+			goto end;
+		}
 		if (tls13_record_encrypt(&conn->client_write_key, conn->client_write_iv,
 			conn->client_seq_num, record, recordlen, padding_len,
 			enced_record, &enced_recordlen) != 1) {
@@ -1898,7 +1912,11 @@ int tls13_do_connect(TLS_CONNECT *conn)
 		goto end;
 	}
 	tls13_record_trace(stderr, record, recordlen, 0, 0);
-	tls13_padding_len_rand(&padding_len);
+	if (tls13_padding_len_rand(&padding_len) != 1) {
+		error_print();
+		tls_send_alert(conn, TLS_alert_internal_error);
+		goto end;
+	}
 	if (tls13_record_encrypt(&conn->client_write_key, conn->client_write_iv,
 		conn->client_seq_num, record, recordlen, padding_len,
 		enced_record, &enced_recordlen) != 1) {
@@ -2073,8 +2091,12 @@ int tls13_do_accept(TLS_CONNECT *conn)
 
 	// 2. Send ServerHello
 	tls_trace("send ServerHello\n");
-	rand_bytes(server_random, 32);
-	sm2_key_generate(&server_ecdhe);
+	if (rand_bytes(server_random, 32) != 1
+		|| sm2_key_generate(&server_ecdhe) != 1) {
+		error_print();
+		tls_send_alert(conn, TLS_alert_internal_error);
+		goto end;
+	}
 	if (tls13_process_client_hello_exts(client_exts, client_exts_len,
 		&server_ecdhe, &client_ecdhe_public,
 		server_exts, &server_exts_len, sizeof(server_exts)) != 1) {
@@ -2134,7 +2156,11 @@ int tls13_do_accept(TLS_CONNECT *conn)
 	tls_record_set_protocol(record, TLS_protocol_tls12);
 	tls13_record_set_handshake_encrypted_extensions(record, &recordlen);
 	tls13_record_trace(stderr, record, recordlen, 0, 0);
-	tls13_padding_len_rand(&padding_len);
+	if (tls13_padding_len_rand(&padding_len) != 1) {
+		error_print();
+		tls_send_alert(conn, TLS_alert_internal_error);
+		goto end;
+	}
 	if (tls13_record_encrypt(&conn->server_write_key, conn->server_write_iv,
 		conn->server_seq_num, record, recordlen, padding_len,
 		enced_record, &enced_recordlen) != 1) {
@@ -2163,7 +2189,11 @@ int tls13_do_accept(TLS_CONNECT *conn)
 			goto end;
 		}
 		tls13_record_trace(stderr, record, recordlen, 0, 0);
-		tls13_padding_len_rand(&padding_len);
+		if (tls13_padding_len_rand(&padding_len) != 1) {
+			error_print();
+			tls_send_alert(conn, TLS_alert_internal_error);
+			goto end;
+		}
 		if (tls13_record_encrypt(&conn->server_write_key, conn->server_write_iv,
 			conn->server_seq_num, record, recordlen, padding_len,
 			enced_record, &enced_recordlen) != 1) {
@@ -2187,7 +2217,11 @@ int tls13_do_accept(TLS_CONNECT *conn)
 		goto end;
 	}
 	tls13_record_trace(stderr, record, recordlen, 0, 0);
-	tls13_padding_len_rand(&padding_len);
+	if (tls13_padding_len_rand(&padding_len) != 1) {
+		error_print();
+		tls_send_alert(conn, TLS_alert_internal_error);
+		goto end;
+	}
 	if (tls13_record_encrypt(&conn->server_write_key, conn->server_write_iv,
 		conn->server_seq_num, record, recordlen, padding_len,
 		enced_record, &enced_recordlen) != 1) {
@@ -2213,7 +2247,11 @@ int tls13_do_accept(TLS_CONNECT *conn)
 		goto end;
 	}
 	tls13_record_trace(stderr, record, recordlen, 0, 0);
-	tls13_padding_len_rand(&padding_len);
+	if (tls13_padding_len_rand(&padding_len) != 1) {
+		error_print();
+		tls_send_alert(conn, TLS_alert_internal_error);
+		goto end;
+	}
 	if (tls13_record_encrypt(&conn->server_write_key, conn->server_write_iv,
 		conn->server_seq_num, record, recordlen, padding_len,
 		enced_record, &enced_recordlen) != 1) {
@@ -2241,7 +2279,11 @@ int tls13_do_accept(TLS_CONNECT *conn)
 		goto end;
 	}
 	tls13_record_trace(stderr, record, recordlen, 0, 0);
-	tls13_padding_len_rand(&padding_len);
+	if (tls13_padding_len_rand(&padding_len) != 1) {
+		error_print();
+		tls_send_alert(conn, TLS_alert_internal_error);
+		goto end;
+	}
 	if (tls13_record_encrypt(&conn->server_write_key, conn->server_write_iv,
 		conn->server_seq_num, record, recordlen, padding_len,
 		enced_record, &enced_recordlen) != 1) {
